@@ -254,6 +254,26 @@ def main(argv):
                 lines.append(model_line(attempts, rf, dnr, seq_))
                 metas.append((case, canon_real(o_, r_, l_), (attempts, rf, dnr, spelling, empty, seq_, True)))
             nh += 1
+    # large budgets ("retry every 100 ms for half a minute"): the rule is the same for every value of `attempts`, not only for small ones
+    for attempts in (6, 17, 255, 256, 257, 258, 259, 300, 1000, 1025):
+        for shape in ("all-fail", "last-succeeds", "middle-succeeds", "not-retryable-late", "first-succeeds"):
+            seq = [0] * attempts
+            if shape == "last-succeeds":
+                seq[-1] = "ok"
+            elif shape == "middle-succeeds":
+                seq[attempts // 2] = "ok"
+            elif shape == "not-retryable-late":
+                seq[attempts - 2] = 9
+            elif shape == "first-succeeds":
+                seq[0] = "ok"
+            rf, dnr = (None, [9]) if shape == "not-retryable-late" else ([0], None) if attempts % 2 else (None, None)
+            outcome, res, log, script = run_real(retrying, attempts, rf, dnr, "tuple", tuple(seq), 0.1)
+            case = {"attempts": attempts, "retry_for": rf, "do_not_retry_for": dnr, "outcomes": shape, "spelling": "tuple"}
+            ctx.case(("large-attempts", attempts, shape))
+            ctx.count("large attempts")
+            monitor(ctx, case, attempts, rf, dnr, tuple(seq), 0.1, outcome, res, log, script)
+            lines.append(model_line(attempts, rf, dnr, tuple(seq)))
+            metas.append((case, canon_real(outcome, res, log), None))
     # a method reachable but not listed in dir(): never retried
     for attempts in (1, 2, 3):
         for seq in itertools.product([0, "ok"], repeat=attempts):
